@@ -47,7 +47,7 @@ CLAIMED = {
    note="Assumes the JWS contract (verification with the signing key returns the signed payload, any other key fails), go/ssa faithful, z3 sound. Outside: ES256/JOSE themselves, JSON/YAML parsing. Defects found and fixed: 9131962 (nil digest panic), 8d4173a (cli.Verify ignored the header).",
    ref="DESIGN.md 5 (C09)"),
  "C08": dict(
-   text="Digest data and control flow only, decided by symbolic execution with z3: with document serialisation, canonicalisation and SHA-256 as injective uninterpreted functions over an abstract content token, the real Envelope.calculate / Digest / Validate / verifyDigest are shown, for symbolic content tokens before and after an edit, to put exactly the digest of the current document into the header, to validate a calculated envelope iff its parts validate, to reject every envelope whose document content differs from the one digested (signed or not), and to produce a different digest after recalculation iff the content differs. Native replays use real documents, canonical JSON and SHA-256.",
+   text="Digest data and control flow only, decided by symbolic execution with z3: with document serialisation, canonicalisation and SHA-256 as injective uninterpreted functions over an abstract content token, the real Envelope.calculate / Digest / Validate / verifyDigest are shown, for symbolic content tokens before and after an edit, to put exactly the digest of the current document into the header, to validate a calculated envelope iff its parts validate, to reject every envelope whose document content differs from the one digested (signed or not), and to produce a different digest after recalculation iff the content differs. A lemma stage decides, on the real c14n.encodeString, part of the injectivity that the digest flow assumes: the canonical form of every accepted byte string of up to 3 (4) bytes unescapes per RFC 8259 to the original, and no two different strings of up to 1 (2) bytes share a canonical form (2-safety). Native replays use real documents, canonical JSON and SHA-256.",
    note="Outside (not decided): the every-field sweep over real serialised documents (whether every member reaches the serialisation: reflection and encoding/json are beyond the encoder) and the re-encoding half, which rests on C07's member-order / escape independence. Injectivity of marshal/c14n/sha256 is an assumption.",
    ref="DESIGN.md 5 (C08)"),
  "C10": dict(
